@@ -69,3 +69,20 @@ Proof. vm_compute. reflexivity. Qed.
 Print Assumptions %(p)s_modelled_source_unchanged.
 ''' % {'p': pid})
 print('pinned', {p: len(v) for p, v in PINS.items()})
+
+# ---- writes through parameters (gen/ParamWrites.v): pin the current list ----
+pw = open(os.path.join(ROOT, 'coq/gen/ParamWrites.v')).read()
+body = pw[pw.index('Definition param_writes : list (str * str * str) :='):]
+body = body.replace('Definition param_writes :', 'Definition pinned_param_writes :', 1)
+HEAD = """(* ParamWritesSpec.v - the places where a function of in_toto writes through a parameter or its receiver (memory the
+   caller still sees), as inventoried by harness/xlate/paramwrites.go when the models were written. Each entry was read:
+   receivers being built or loaded (Key, Metablock, Envelope, checkResult, Set), SubstituteParameters writing into the
+   copies it makes first, VerifySublayouts replacing a sublayout by its summary in the map it was given by InTotoVerify,
+   verifyMatchRule normalising the rule map returned by UnpackRule, recordArtifacts using its own visited set,
+   InTotoRecordStop filling the link it loaded.  None of them reaches an object of the CALLER of the verification entry
+   points.  Regenerate with tools/repin.py only after reading a new entry. *)
+From IT Require Import model.Base.
+
+"""
+open(os.path.join(ROOT, 'coq/spec/ParamWritesSpec.v'), 'w').write(HEAD + body)
+print('pinned param writes:', body.count('\n  ('))
